@@ -2,6 +2,7 @@
 //! recording oracle environment, the Jacobian coordinate helpers against the representation they
 //! wrap (finding F2), and the sign/canonicity logic of the Jubjub affine decoder.
 use crate::ffi::*;
+use crate::stubs::SQRT;
 use crate::vcover;
 use crate::vk::*;
 use group::{GroupEncoding, UncompressedEncoding};
@@ -62,7 +63,7 @@ fn repr192<R: Default + AsMut<[u8]>>(b: &[u8; 192]) -> R {
 /// `Some` <=> blst_p1_uncompress succeeded on exactly these bytes AND the on-curve oracle AND the
 /// subgroup oracle said yes FOR THAT VERY POINT; the value is that point.
 #[cfg_attr(kani, kani::proof)]
-#[cfg_attr(kani, kani::unwind(50))]
+#[cfg_attr(kani, kani::unwind(98))]
 #[cfg_attr(kani, kani::stub(blst::blst_p1_uncompress, stub_p1_uncompress))]
 #[cfg_attr(kani, kani::stub(blst::blst_p1_affine_on_curve, stub_p1_affine_on_curve))]
 #[cfg_attr(kani, kani::stub(blst::blst_p1_affine_in_g1, stub_p1_affine_in_g1))]
@@ -71,17 +72,17 @@ pub fn g1a_from_compressed_checked() {
     let r = <G1Affine as GroupEncoding>::from_bytes(&repr48(&b));
     let some: bool = r.is_some().into();
     unsafe {
-        assert!(P1_UNCOMPRESS.n == 1 && P1_UNCOMPRESS.input == b);
+        assert!(P1_UNCOMPRESS.n == 1 && eqb(&P1_UNCOMPRESS.input, &b));
         let checks_ok = P1A_ON_CURVE.n >= 1
             && P1A_ON_CURVE.lb
-            && P1A_ON_CURVE.la[0] == P1_UNCOMPRESS.out
+            && eqn(&P1A_ON_CURVE.la[0], &P1_UNCOMPRESS.out)
             && P1A_IN_G1.n >= 1
             && P1A_IN_G1.lb
-            && P1A_IN_G1.la[0] == P1_UNCOMPRESS.out;
+            && eqn(&P1A_IN_G1.la[0], &P1_UNCOMPRESS.out);
         if some {
             assert!(P1_UNCOMPRESS.ok, "Some although uncompress failed");
             assert!(checks_ok, "Some although on-curve / subgroup oracle did not say yes for the decoded point");
-            assert!(g1a_raw(&r.unwrap()) == P1_UNCOMPRESS.out);
+            assert!(eqn(&g1a_raw(&r.unwrap()), &P1_UNCOMPRESS.out));
         } else {
             assert!(!(P1_UNCOMPRESS.ok && checks_ok), "None although every check passed");
         }
@@ -92,7 +93,7 @@ pub fn g1a_from_compressed_checked() {
 
 /// G1Affine compressed, unchecked: `Some` <=> uncompress succeeded; no on-curve / subgroup oracle is consulted
 #[cfg_attr(kani, kani::proof)]
-#[cfg_attr(kani, kani::unwind(50))]
+#[cfg_attr(kani, kani::unwind(98))]
 #[cfg_attr(kani, kani::stub(blst::blst_p1_uncompress, stub_p1_uncompress))]
 #[cfg_attr(kani, kani::stub(blst::blst_p1_affine_on_curve, stub_p1_affine_on_curve))]
 #[cfg_attr(kani, kani::stub(blst::blst_p1_affine_in_g1, stub_p1_affine_in_g1))]
@@ -101,11 +102,11 @@ pub fn g1a_from_compressed_unchecked() {
     let r = <G1Affine as GroupEncoding>::from_bytes_unchecked(&repr48(&b));
     let some: bool = r.is_some().into();
     unsafe {
-        assert!(P1_UNCOMPRESS.n == 1 && P1_UNCOMPRESS.input == b);
+        assert!(P1_UNCOMPRESS.n == 1 && eqb(&P1_UNCOMPRESS.input, &b));
         assert!(some == P1_UNCOMPRESS.ok);
         assert!(P1A_IN_G1.n == 0 && P1A_ON_CURVE.n == 0);
         if some {
-            assert!(g1a_raw(&r.unwrap()) == P1_UNCOMPRESS.out);
+            assert!(eqn(&g1a_raw(&r.unwrap()), &P1_UNCOMPRESS.out));
         }
     }
     vcover!(some);
@@ -124,11 +125,11 @@ pub fn g1a_from_uncompressed_on_curve() {
     let r = <G1Affine as UncompressedEncoding>::from_uncompressed(&repr96(&b));
     let some: bool = r.is_some().into();
     unsafe {
-        assert!(P1_DESERIALIZE.n == 1 && P1_DESERIALIZE.input == b);
-        let on_curve = P1A_ON_CURVE.n >= 1 && P1A_ON_CURVE.lb && P1A_ON_CURVE.la[0] == P1_DESERIALIZE.out;
+        assert!(P1_DESERIALIZE.n == 1 && eqb(&P1_DESERIALIZE.input, &b));
+        let on_curve = P1A_ON_CURVE.n >= 1 && P1A_ON_CURVE.lb && eqn(&P1A_ON_CURVE.la[0], &P1_DESERIALIZE.out);
         if some {
             assert!(P1_DESERIALIZE.ok && on_curve);
-            assert!(g1a_raw(&r.unwrap()) == P1_DESERIALIZE.out);
+            assert!(eqn(&g1a_raw(&r.unwrap()), &P1_DESERIALIZE.out));
         } else {
             // rejection is explained by a failed decode, a failed on-curve test, or a failed subgroup test
             let in_g1 = P1A_IN_G1.n >= 1 && P1A_IN_G1.lb;
@@ -159,7 +160,7 @@ fn g1a_uncompressed_subgroup(which: u8) {
     unsafe {
         if some {
             assert!(
-                P1A_IN_G1.n >= 1 && P1A_IN_G1.lb && P1A_IN_G1.la[0] == P1_DESERIALIZE.out,
+                P1A_IN_G1.n >= 1 && P1A_IN_G1.lb && eqn(&P1A_IN_G1.la[0], &P1_DESERIALIZE.out),
                 "checked uncompressed G1 decoder returned a point whose subgroup membership was never established"
             );
         }
@@ -205,30 +206,30 @@ pub fn g1a_serde_object_contract() {
     unsafe {
         if which == 0 {
             let r = <G1Affine as SerdeObject>::from_raw_bytes(&b);
-            let on_curve = P1A_ON_CURVE.n >= 1 && P1A_ON_CURVE.lb && P1A_ON_CURVE.la[0] == P1_DESERIALIZE.out;
-            assert!(P1_DESERIALIZE.n == 1 && P1_DESERIALIZE.input == b);
+            let on_curve = P1A_ON_CURVE.n >= 1 && P1A_ON_CURVE.lb && eqn(&P1A_ON_CURVE.la[0], &P1_DESERIALIZE.out);
+            assert!(P1_DESERIALIZE.n == 1 && eqb(&P1_DESERIALIZE.input, &b));
             if let Some(p) = r {
-                assert!(P1_DESERIALIZE.ok && on_curve && g1a_raw(&p) == P1_DESERIALIZE.out);
+                assert!(P1_DESERIALIZE.ok && on_curve && eqn(&g1a_raw(&p), &P1_DESERIALIZE.out));
             }
             vcover!(r.is_some());
         } else if which == 1 {
             let mut rd: &[u8] = &b;
             let r = <G1Affine as SerdeObject>::read_raw(&mut rd);
-            let on_curve = P1A_ON_CURVE.n >= 1 && P1A_ON_CURVE.lb && P1A_ON_CURVE.la[0] == P1_DESERIALIZE.out;
-            assert!(P1_DESERIALIZE.n == 1 && P1_DESERIALIZE.input == b);
+            let on_curve = P1A_ON_CURVE.n >= 1 && P1A_ON_CURVE.lb && eqn(&P1A_ON_CURVE.la[0], &P1_DESERIALIZE.out);
+            assert!(P1_DESERIALIZE.n == 1 && eqb(&P1_DESERIALIZE.input, &b));
             if let Ok(p) = &r {
-                assert!(P1_DESERIALIZE.ok && on_curve && g1a_raw(p) == P1_DESERIALIZE.out);
+                assert!(P1_DESERIALIZE.ok && on_curve && eqn(&g1a_raw(p), &P1_DESERIALIZE.out));
             }
             vcover!(r.is_ok());
             core::mem::forget(r);
         } else {
             let r = <G1Affine as UncompressedEncoding>::from_uncompressed_unchecked(&repr96(&b));
             let some: bool = r.is_some().into();
-            assert!(P1_DESERIALIZE.n == 1 && P1_DESERIALIZE.input == b);
+            assert!(P1_DESERIALIZE.n == 1 && eqb(&P1_DESERIALIZE.input, &b));
             assert!(some == P1_DESERIALIZE.ok);
             assert!(P1A_ON_CURVE.n == 0 && P1A_IN_G1.n == 0);
             if some {
-                assert!(g1a_raw(&r.unwrap()) == P1_DESERIALIZE.out);
+                assert!(eqn(&g1a_raw(&r.unwrap()), &P1_DESERIALIZE.out));
             }
             vcover!(some);
         }
@@ -238,7 +239,7 @@ pub fn g1a_serde_object_contract() {
 /// G1Projective compressed: checked = the affine checked decoder followed by blst_p1_from_affine on that
 /// very point; unchecked skips on-curve/subgroup only.
 #[cfg_attr(kani, kani::proof)]
-#[cfg_attr(kani, kani::unwind(50))]
+#[cfg_attr(kani, kani::unwind(146))]
 #[cfg_attr(kani, kani::stub(blst::blst_p1_uncompress, stub_p1_uncompress))]
 #[cfg_attr(kani, kani::stub(blst::blst_p1_affine_on_curve, stub_p1_affine_on_curve))]
 #[cfg_attr(kani, kani::stub(blst::blst_p1_affine_in_g1, stub_p1_affine_in_g1))]
@@ -253,13 +254,13 @@ pub fn g1p_from_compressed_contract() {
     };
     let some: bool = r.is_some().into();
     unsafe {
-        assert!(P1_UNCOMPRESS.n == 1 && P1_UNCOMPRESS.input == b);
+        assert!(P1_UNCOMPRESS.n == 1 && eqb(&P1_UNCOMPRESS.input, &b));
         let checks_ok = P1A_ON_CURVE.n >= 1
             && P1A_ON_CURVE.lb
-            && P1A_ON_CURVE.la[0] == P1_UNCOMPRESS.out
+            && eqn(&P1A_ON_CURVE.la[0], &P1_UNCOMPRESS.out)
             && P1A_IN_G1.n >= 1
             && P1A_IN_G1.lb
-            && P1A_IN_G1.la[0] == P1_UNCOMPRESS.out;
+            && eqn(&P1A_IN_G1.la[0], &P1_UNCOMPRESS.out);
         if checked {
             assert!(some == (P1_UNCOMPRESS.ok && checks_ok));
         } else {
@@ -267,8 +268,8 @@ pub fn g1p_from_compressed_contract() {
             assert!(P1A_IN_G1.n == 0 && P1A_ON_CURVE.n == 0);
         }
         if some {
-            assert!(P1_FROM_AFFINE.n >= 1 && P1_FROM_AFFINE.la[0] == pad18(&P1_UNCOMPRESS.out));
-            assert!(g1p_raw(&r.unwrap()) == P1_FROM_AFFINE.lr);
+            assert!(P1_FROM_AFFINE.n >= 1 && eqn(&P1_FROM_AFFINE.la[0], &pad18(&P1_UNCOMPRESS.out)));
+            assert!(eqn(&g1p_raw(&r.unwrap()), &P1_FROM_AFFINE.lr));
         }
     }
     vcover!(some && checked);
@@ -278,7 +279,7 @@ pub fn g1p_from_compressed_contract() {
 
 /// CurveAffine::from_xy(x, y): `Some` <=> on-curve oracle yes for the point with exactly these coordinates
 #[cfg_attr(kani, kani::proof)]
-#[cfg_attr(kani, kani::unwind(20))]
+#[cfg_attr(kani, kani::unwind(98))]
 #[cfg_attr(kani, kani::stub(blst::blst_p1_affine_on_curve, stub_p1_affine_on_curve))]
 pub fn g1a_from_xy_contract() {
     let (x, y): ([u64; 6], [u64; 6]) = (any(), any());
@@ -292,10 +293,10 @@ pub fn g1a_from_xy_contract() {
         i += 1;
     }
     unsafe {
-        assert!(P1A_ON_CURVE.n == 1 && P1A_ON_CURVE.la[0] == xy);
+        assert!(P1A_ON_CURVE.n == 1 && eqn(&P1A_ON_CURVE.la[0], &xy));
         assert!(some == P1A_ON_CURVE.lb);
         if some {
-            assert!(g1a_raw(&r.unwrap()) == xy);
+            assert!(eqn(&g1a_raw(&r.unwrap()), &xy));
         }
     }
     vcover!(some);
@@ -333,7 +334,7 @@ fn canon_nonzero_fp() -> [u64; 6] {
 /// Under Kani the field operations are uninterpreted oracles; natively (binary `replay_real`, real blst) the
 /// same assertion is evaluated with the real field arithmetic. [expected to FAIL on the pinned tree]
 #[cfg_attr(kani, kani::proof)]
-#[cfg_attr(kani, kani::unwind(20))]
+#[cfg_attr(kani, kani::unwind(50))]
 #[cfg_attr(kani, kani::stub(blst::blst_fp_mul, stub_fp_mul))]
 #[cfg_attr(kani, kani::stub(blst::blst_fp_sqr, stub_fp_sqr))]
 pub fn g1p_jacobian_coordinates_is_representation() {
@@ -350,7 +351,7 @@ pub fn g1p_jacobian_coordinates_is_representation() {
 /// F2, constructor side: `new_jacobian(x, y, z)` stores z unchanged, so it must store x and y unchanged
 /// (whenever it returns a point). [expected to FAIL on the pinned tree]
 #[cfg_attr(kani, kani::proof)]
-#[cfg_attr(kani, kani::unwind(20))]
+#[cfg_attr(kani, kani::unwind(50))]
 #[cfg_attr(kani, kani::stub(blst::blst_fp_mul, stub_fp_mul))]
 #[cfg_attr(kani, kani::stub(blst::blst_fp_sqr, stub_fp_sqr))]
 #[cfg_attr(kani, kani::stub(blst::blst_fp_eucl_inverse, stub_fp_eucl_inverse))]
@@ -381,7 +382,7 @@ pub fn g1p_new_jacobian_is_representation() {
 // =========================================================================================== G2
 
 #[cfg_attr(kani, kani::proof)]
-#[cfg_attr(kani, kani::unwind(98))]
+#[cfg_attr(kani, kani::unwind(194))]
 #[cfg_attr(kani, kani::stub(blst::blst_p2_uncompress, stub_p2_uncompress))]
 #[cfg_attr(kani, kani::stub(blst::blst_p2_affine_on_curve, stub_p2_affine_on_curve))]
 #[cfg_attr(kani, kani::stub(blst::blst_p2_affine_in_g2, stub_p2_affine_in_g2))]
@@ -395,13 +396,13 @@ pub fn g2a_from_compressed_contract() {
     };
     let some: bool = r.is_some().into();
     unsafe {
-        assert!(P2_UNCOMPRESS.n == 1 && P2_UNCOMPRESS.input == b);
+        assert!(P2_UNCOMPRESS.n == 1 && eqb(&P2_UNCOMPRESS.input, &b));
         let checks_ok = P2A_ON_CURVE.n >= 1
             && P2A_ON_CURVE.lb
-            && P2A_ON_CURVE.la[0] == P2_UNCOMPRESS.out
+            && eqn(&P2A_ON_CURVE.la[0], &P2_UNCOMPRESS.out)
             && P2A_IN_G2.n >= 1
             && P2A_IN_G2.lb
-            && P2A_IN_G2.la[0] == P2_UNCOMPRESS.out;
+            && eqn(&P2A_IN_G2.la[0], &P2_UNCOMPRESS.out);
         if checked {
             assert!(some == (P2_UNCOMPRESS.ok && checks_ok));
         } else {
@@ -409,7 +410,7 @@ pub fn g2a_from_compressed_contract() {
             assert!(P2A_ON_CURVE.n == 0 && P2A_IN_G2.n == 0);
         }
         if some {
-            assert!(g2a_raw(&r.unwrap()) == P2_UNCOMPRESS.out);
+            assert!(eqn(&g2a_raw(&r.unwrap()), &P2_UNCOMPRESS.out));
         }
     }
     vcover!(some && checked);
@@ -455,13 +456,13 @@ pub fn g2a_from_uncompressed_contract() {
         }
     };
     unsafe {
-        assert!(P2_DESERIALIZE.n == 1 && P2_DESERIALIZE.input == b);
+        assert!(P2_DESERIALIZE.n == 1 && eqb(&P2_DESERIALIZE.input, &b));
         let checks_ok = P2A_ON_CURVE.n >= 1
             && P2A_ON_CURVE.lb
-            && P2A_ON_CURVE.la[0] == P2_DESERIALIZE.out
+            && eqn(&P2A_ON_CURVE.la[0], &P2_DESERIALIZE.out)
             && P2A_IN_G2.n >= 1
             && P2A_IN_G2.lb
-            && P2A_IN_G2.la[0] == P2_DESERIALIZE.out;
+            && eqn(&P2A_IN_G2.la[0], &P2_DESERIALIZE.out);
         if which < 3 {
             assert!(some == (P2_DESERIALIZE.ok && checks_ok));
         } else {
@@ -469,7 +470,7 @@ pub fn g2a_from_uncompressed_contract() {
             assert!(P2A_ON_CURVE.n == 0 && P2A_IN_G2.n == 0);
         }
         if some {
-            assert!(raw == P2_DESERIALIZE.out);
+            assert!(eqn(&raw, &P2_DESERIALIZE.out));
         }
     }
     vcover!(some && which == 0);
@@ -480,7 +481,7 @@ pub fn g2a_from_uncompressed_contract() {
 }
 
 #[cfg_attr(kani, kani::proof)]
-#[cfg_attr(kani, kani::unwind(98))]
+#[cfg_attr(kani, kani::unwind(290))]
 #[cfg_attr(kani, kani::stub(blst::blst_p2_uncompress, stub_p2_uncompress))]
 #[cfg_attr(kani, kani::stub(blst::blst_p2_affine_on_curve, stub_p2_affine_on_curve))]
 #[cfg_attr(kani, kani::stub(blst::blst_p2_affine_in_g2, stub_p2_affine_in_g2))]
@@ -495,13 +496,13 @@ pub fn g2p_from_compressed_contract() {
     };
     let some: bool = r.is_some().into();
     unsafe {
-        assert!(P2_UNCOMPRESS.n == 1 && P2_UNCOMPRESS.input == b);
+        assert!(P2_UNCOMPRESS.n == 1 && eqb(&P2_UNCOMPRESS.input, &b));
         let checks_ok = P2A_ON_CURVE.n >= 1
             && P2A_ON_CURVE.lb
-            && P2A_ON_CURVE.la[0] == P2_UNCOMPRESS.out
+            && eqn(&P2A_ON_CURVE.la[0], &P2_UNCOMPRESS.out)
             && P2A_IN_G2.n >= 1
             && P2A_IN_G2.lb
-            && P2A_IN_G2.la[0] == P2_UNCOMPRESS.out;
+            && eqn(&P2A_IN_G2.la[0], &P2_UNCOMPRESS.out);
         if checked {
             assert!(some == (P2_UNCOMPRESS.ok && checks_ok));
         } else {
@@ -509,8 +510,8 @@ pub fn g2p_from_compressed_contract() {
             assert!(P2A_ON_CURVE.n == 0 && P2A_IN_G2.n == 0);
         }
         if some {
-            assert!(P2_FROM_AFFINE.n >= 1 && P2_FROM_AFFINE.la[0] == pad36(&P2_UNCOMPRESS.out));
-            assert!(g2p_raw(&r.unwrap()) == P2_FROM_AFFINE.lr);
+            assert!(P2_FROM_AFFINE.n >= 1 && eqn(&P2_FROM_AFFINE.la[0], &pad36(&P2_UNCOMPRESS.out)));
+            assert!(eqn(&g2p_raw(&r.unwrap()), &P2_FROM_AFFINE.lr));
         }
     }
     vcover!(some && checked);
@@ -547,7 +548,7 @@ fn canon_nonzero_fp2() -> [u64; 12] {
 
 /// F2 for G2 (same statement as for G1). [expected to FAIL on the pinned tree]
 #[cfg_attr(kani, kani::proof)]
-#[cfg_attr(kani, kani::unwind(40))]
+#[cfg_attr(kani, kani::unwind(98))]
 #[cfg_attr(kani, kani::stub(blst::blst_fp2_mul, stub_fp2_mul))]
 #[cfg_attr(kani, kani::stub(blst::blst_fp2_sqr, stub_fp2_sqr))]
 pub fn g2p_jacobian_coordinates_is_representation() {
@@ -588,10 +589,12 @@ fn fq_l(x: &Base) -> [u64; 4] {
 }
 
 /// JubjubAffine::from_bytes / from_bytes_pre_zip216_compatibility (ZIP 216): sign-bit and canonicity logic.
-/// With every blst_fr_* operation an oracle (the square root runs ff's real Tonelli-Shanks over them):
+/// With every blst_fr_* operation an oracle:
 ///   * the canonicity oracle is asked about the bytes WITH THE SIGN BIT CLEARED, `Some` => it said yes;
 ///   * v = what blst_fr_from_uint64 returned for those masked bytes;
-///   * `Some` => the square-root test passed: the last product (x*x) equals the radicand for the returned root x;
+///   * the square root is an oracle too (ff::helpers::sqrt_tonelli_shanks replaced by a recording stub: CBMC's symbolic
+///     execution does not get through its 32x32 constant-time loop nest in 15 min); it is asked about the radicand
+///     (v^2 - 1) * inv(1 + d v^2) built from the oracle field operations; `Some` => it returned a root x;
 ///   * u = x if (lsb(to_bytes(x)) ^ sign) == 0 else -x (the cneg oracle applied to x with flag true);
 ///   * ZIP 216 enabled: x == 0 with the sign bit set is rejected; disabled: accepted.
 /// and conversely `None` only if one of these tests failed.
@@ -603,15 +606,14 @@ fn jubjub_affine_from_bytes(zip216: bool) {
     let r = if zip216 { JubjubAffine::from_bytes(b) } else { JubjubAffine::from_bytes_pre_zip216_compatibility(b) };
     let some: bool = r.is_some().into();
     unsafe {
-        assert!(FR_CHECK.n == 1 && FR_CHECK.input == masked);
+        assert!(FR_CHECK.n == 1 && eqb(&FR_CHECK.input, &masked));
         assert!(FR_FROM_U64.n == 1 && FR_FROM_U64.a[0][0] == limbs_of_bytes::<4, 32>(&masked));
         // radicand (v^2 - 1) * inv(1 + d v^2): the second blst_fr_mul call of from_bytes_inner (the first is d * v^2)
-        assert!(FR_MUL.n >= 3 && FR_INV.n == 1 && FR_MUL.a[1][1] == FR_INV.r[0]);
+        assert!(FR_MUL.n == 2 && FR_INV.n == 1);
         let radicand = FR_MUL.r[1];
-        // ff::helpers::sqrt_tonelli_shanks ends with CtOption::new(x, (x * x).ct_eq(radicand)): the last multiplication
-        let x = FR_MUL.la[0];
-        assert!(FR_MUL.la[1] == x);
-        let sqrt_ok = FR_MUL.lr == radicand;
+        assert!(SQRT.n == 1 && SQRT.la[0] == radicand, "square root not taken of (v^2-1)/(1+d v^2)");
+        let x = SQRT.lr;
+        let sqrt_ok = SQRT.lb;
         // what the sign-fixing closure sees (CtOption::and_then hands it the default value when the root test failed)
         let u_in = if sqrt_ok { x } else { [0u64; 4] };
         assert!(U64_FROM_FR.n >= 1 && U64_FROM_FR.la[0] == u_in);
@@ -625,7 +627,7 @@ fn jubjub_affine_from_bytes(zip216: bool) {
             assert!(fq_l(&p.get_v()) == FR_FROM_U64.r[0]);
             assert!(fq_l(&p.get_u()) == if flip { FR_CNEG.lr } else { x }, "wrong sign selection for u");
         }
-        vcover!(!some && FR_CHECK.ok && sqrt_ok);
+        vcover!(!zip216 || (!some && FR_CHECK.ok && sqrt_ok)); // the ZIP 216 rejection is reachable
         vcover!(!some && FR_CHECK.ok && !sqrt_ok);
         vcover!(!some && !FR_CHECK.ok);
     }
@@ -633,7 +635,8 @@ fn jubjub_affine_from_bytes(zip216: bool) {
     vcover!(some && sign == 0);
 }
 #[cfg_attr(kani, kani::proof)]
-#[cfg_attr(kani, kani::unwind(66))]
+#[cfg_attr(kani, kani::unwind(34))]
+#[cfg_attr(kani, kani::stub(ff::helpers::sqrt_tonelli_shanks, crate::stubs::sqrt_oracle))]
 #[cfg_attr(kani, kani::stub(blst::blst_scalar_fr_check, stub_scalar_fr_check))]
 #[cfg_attr(kani, kani::stub(zeroize::optimization_barrier, crate::stubs::noop_barrier))]
 #[cfg_attr(kani, kani::stub(blst::blst_fr_from_uint64, stub_fr_from_uint64))]
@@ -649,7 +652,8 @@ pub fn jubjub_affine_from_bytes_zip216() {
 }
 
 #[cfg_attr(kani, kani::proof)]
-#[cfg_attr(kani, kani::unwind(66))]
+#[cfg_attr(kani, kani::unwind(34))]
+#[cfg_attr(kani, kani::stub(ff::helpers::sqrt_tonelli_shanks, crate::stubs::sqrt_oracle))]
 #[cfg_attr(kani, kani::stub(blst::blst_scalar_fr_check, stub_scalar_fr_check))]
 #[cfg_attr(kani, kani::stub(zeroize::optimization_barrier, crate::stubs::noop_barrier))]
 #[cfg_attr(kani, kani::stub(blst::blst_fr_from_uint64, stub_fr_from_uint64))]
